@@ -12,6 +12,7 @@ import time
 import traceback
 
 ROOT = os.path.dirname(os.path.dirname(os.path.abspath(__file__)))
+MAX_REPLAY_FILES = 200                          # a broken tree can fail tens of thousands of obligations: every one is counted, the first 200 get a replay file
 OUT = os.environ.get("VERIF_OUT", ROOT)       # evidence/ and replays/ live here (only the seeded-change matrix redirects it)
 
 GLOBAL_ASSUMPTIONS = {
@@ -180,7 +181,12 @@ class Run:
         os.makedirs(os.path.join(OUT, "evidence"), exist_ok=True)
         # replay files
         shown = 0
-        for v in self.violations:
+        rdir = os.path.join(OUT, "replays", self.pid)
+        if os.path.isdir(rdir):                 # replay files describe THIS run only
+            for fn in os.listdir(rdir):
+                if fn.endswith(".json"):
+                    os.remove(os.path.join(rdir, fn))
+        for v in self.violations[:MAX_REPLAY_FILES]:
             path = os.path.join(OUT, v["replay"])
             os.makedirs(os.path.dirname(path), exist_ok=True)
             with open(path, "w") as f:
@@ -196,7 +202,7 @@ class Run:
                 print("    obligation=%s :: %s" % (v["obligation"], v["what"][:300]))
                 shown += 1
         if len(self.violations) > shown:
-            print("    ... %d more violations (all replay files written)" % (len(self.violations) - shown))
+            print("    ... %d more violations (replay files for the first %d)" % (len(self.violations) - shown, min(len(self.violations), MAX_REPLAY_FILES)))
         for u in self.undecided[:20]:
             print("UNDECIDED %s %s" % (u["obligation"], u["reason"]))
         for e in self.errors[:20]:
